@@ -124,6 +124,10 @@ def initial_state(eng, key, contract, kinds):
             raise Unsupported("*args/**kwargs in a function under contract")
     cls_name = qual.split(".")[0] if "." in qual and mod.class_of(qual) is not None else None
     decs = [d.id if isinstance(d, ast.Name) else getattr(d, "attr", "") for d in node.decorator_list]
+    # a nested function verified on its own: its free (closure) variables become extra symbolic parameters
+    closure = contract.get("closure") or {}
+    names = names + [n for n in closure if n not in names]
+    kinds = dict(closure, **kinds)
     for i, name in enumerate(names):
         if name in kinds:
             ktxt = kinds[name]
